@@ -267,8 +267,36 @@ fn history<F: Family>(input: &Input, ctx: &mut Ctx) -> CaseResult {
             Ok(b) => b.as_ref().to_vec(),
             Err(e) => viol!("encode of a valid packet failed: {:?}", e),
         };
-        let op = if i + 1 == n { 0 } else { t.pick(4) };
+        let op = if i + 1 == n { 0 } else { t.pick(5) };
         match op {
+            4 => {
+                // a connection: this packet, a DISCONNECT (half of the time) and one or two more packets written one after
+                // the other into the *same* sink - encoding a packet leaves the sink as it found it, so the sink holds
+                // the concatenation of the encodings and every call succeeds
+                let mut seq: Vec<F::Packet> = vec![p.clone()];
+                if t.flag() {
+                    seq.push(F::gen_of_type(&mut t, &cfg, F::NTYPES - if F::FAM == crate::model::Fam::V5 { 2 } else { 1 }).map_err(|e| Violation::new(e.0))?);
+                }
+                for _ in 0..1 + t.pick(2) {
+                    seq.push(F::gen(&mut t, &cfg).map_err(|e| Violation::new(e.0))?);
+                }
+                let mut want: Vec<u8> = Vec::new();
+                let steps = gen_wsteps(&mut t, 64);
+                let mut w = ScriptedWriter::new(&steps, 1 << 20);
+                for (k, q) in seq.iter().enumerate() {
+                    match F::encode(q) {
+                        Ok(b) => want.extend_from_slice(b.as_ref()),
+                        Err(e) => viol!("encode of a valid packet failed: {:?}", e),
+                    }
+                    let (r, _) = sio::drive(F::encode_async(q, &mut w), want.len() + steps.len() + 64);
+                    if let Err(e) = r {
+                        viol!("packet {} of {} written into one sink ({}): encode_async failed with {:?} although the sink itself never fails (the sink was shut down {} time(s) by earlier calls)", k + 1, seq.len(), fam::render(q).chars().take(60).collect::<String>(), e, w.shutdowns);
+                    }
+                }
+                ensure!(w.out == want, "{} packets written one after the other into one sink: the sink holds {} bytes, the encodings add up to {}", seq.len(), w.out.len(), want.len());
+                ensure!(w.shutdowns == 0, "encode_async shut the caller's sink down ({} time(s)) while writing {} packets", w.shutdowns, seq.len());
+                ctx.label("connection-into-one-sink");
+            }
             3 => {
                 // two encodes in flight on this thread: A is parked on a sink that is not ready after k bytes; B (another
                 // packet, its own sink) is started, parked as well, A is completed, then B. Each sink receives its own
@@ -439,6 +467,8 @@ pub fn run(env: &mut Env) -> RunResult {
     }
     env.run_tapes(SUB_H3, n / 2, 400)?;
     env.run_tapes(SUB_H5, n / 2, 500)?;
+    env.require("c09.history.v3", "connection-into-one-sink");
+    env.require("c09.history.v5", "connection-into-one-sink");
     env.require("c09.history.v3", "two-encodes-in-flight");
     env.require("c09.history.v5", "two-encodes-in-flight");
     env.require("c09.history.v3", "complete-after-abandon");
